@@ -34,7 +34,61 @@ TREES = {
 EMPTY_DIRS = ['E']
 
 
-def env_json():
+BEYOND_FLOAT = 1 << 53    # `Torrent.pieces` is `math.ceil(size / piece_size)` in floating point: not compared from here on
+HUGE = 1 << 1100          # a File size beyond the range of a float: the stock calculate_piece_size() raises OverflowError
+FLOAT_LIMIT = 1 << 1036   # the model's float limit; sizes in [2**40, 2**1036) are not used (float rounding is not modelled)
+
+
+class CalcFault(Exception):
+    """what an overriding calculate_piece_size() of the harness raises (rule {'raise': 'CalcFault'})"""
+
+
+def _exception(torf, name, size):
+    if name == 'CalcFault':
+        return CalcFault(size)
+    if name == 'PieceSizeError':
+        return torf.PieceSizeError(size)
+    return {'ZeroDivisionError': ZeroDivisionError, 'KeyError': KeyError, 'OverflowError': OverflowError,
+            'ArithmeticError': ArithmeticError}[name](size)
+
+
+_classes = {}
+
+
+def make_class(torf, rules):
+    """A subclass of Torrent whose calculate_piece_size() ("It is safe to override this method") is
+    given by `rules` = [{'lo': n, 'hi': n | None, 'value': int} | {…, 'raise': 'ExceptionName'}]: the
+    first rule with lo <= size (< hi) decides; a size no rule covers goes to the stock method.
+    The same description is sent to the Lean driver (`Env.rules`)."""
+    if not rules:
+        return torf.Torrent
+    key = (id(torf), json_key(rules))
+    if key not in _classes:
+        class RuledTorrent(torf.Torrent):
+            @classmethod
+            def calculate_piece_size(cls, size, min_size=None, max_size=None):
+                for r in rules:
+                    if r['lo'] <= size and (r.get('hi') is None or size < r['hi']):
+                        if 'raise' in r:
+                            raise _exception(torf, r['raise'], size)
+                        return r['value']
+                return super().calculate_piece_size(size, min_size=min_size, max_size=max_size)
+        _classes[key] = RuledTorrent
+    return _classes[key]
+
+
+def json_key(x):
+    import json
+    return json.dumps(x, sort_keys=True)
+
+
+def fault_names(rules):
+    """exception kinds with which the recalculation of the piece length may fail in this world: the
+    setter's PieceSizeError (a rejected value), the stock method's OverflowError, what the rules raise"""
+    return {'PieceSizeError', 'OverflowError'} | {r['raise'] for r in (rules or []) if 'raise' in r}
+
+
+def env_json(rules=None):
     files = []
     for name, spec in sorted(TREES.items()):
         if isinstance(spec, int):
@@ -42,7 +96,7 @@ def env_json():
         else:
             for rel, sz in sorted(spec.items()):
                 files.append([ROOT + [name] + rel.split('/'), sz])
-    return {'files': files, 'dirs': [ROOT + [d] for d in EMPTY_DIRS]}
+    return {'files': files, 'dirs': [ROOT + [d] for d in EMPTY_DIRS], 'rules': list(rules or [])}
 
 
 _world = {}
@@ -502,6 +556,13 @@ def project(t, root):
     """API-level projection of a Torrent (same shape as the driver's `stateJson`)."""
     info = t.metainfo['info']
     pieces = info.get('pieces')
+    try:
+        num_pieces = t.pieces if t.size < BEYOND_FLOAT else None
+    except OverflowError:
+        # `Torrent.pieces` divides in floating point: with a listed size beyond the range of a float
+        # (only ever left behind by a content operation that failed for the same reason) the getter
+        # itself raises; the count is then not compared
+        num_pieces = None
     return {
         'name': info.get('name'),
         'mode': MODES[t.mode],
@@ -517,7 +578,7 @@ def project(t, root):
         'inRegexs': [getattr(r, 'pattern', repr(r)) for r in t.include_regexs],
         'filterTypesOk': (all(isinstance(g, str) for g in list(t.exclude_globs) + list(t.include_globs)) and
                           all(isinstance(r, re.Pattern) for r in list(t.exclude_regexs) + list(t.include_regexs))),
-        'size': t.size, 'numPieces': t.pieces,
+        'size': t.size, 'numPieces': num_pieces,
         'listed': [[list(f.parts), f.size] for f in t.files],
         'filepaths': [abstract(root, fp) for fp in t.filepaths],
         'ready': t.is_ready,
@@ -567,10 +628,13 @@ def fresh_pieces(t, obs, root):
     return b''.join(out)
 
 
-def spec_check(torf, t, obs, root, detached=False):
+def spec_check(torf, t, obs, root, detached=False, after_failed_recalc=False):
     """Property C09 evaluated on the real object.  Returns a list of deviation codes.
     `detached`: the object is a copy() that inherited its hashes and has had no content path since
-    (like a torrent read from a file): hashes / readiness without a content path are not deviations."""
+    (like a torrent read from a file): hashes / readiness without a content path are not deviations.
+    `after_failed_recalc`: an earlier operation failed inside the recalculation of the piece length
+    and no content / piece-size assignment has completed since: "content has a piece length" is not
+    demanded (theorems C09_weak_step / C09_inv_recovers); everything else is."""
     dev = []
     info = t.metainfo['info']
     pmin, pmax, pl = obs['pmin'], obs['pmax'], obs['pl']
@@ -597,9 +661,9 @@ def spec_check(torf, t, obs, root, detached=False):
     if obs['mode'] == 2 and len(obs['files']) == 1 and len(obs['files'][0][0]) == 0:
         # one file that is not in a directory is a single-file torrent: `length` + name, no `files`
         dev.append('files-entry-with-empty-path')
-    if obs['size'] > 0 and pl is None:
+    if obs['size'] > 0 and pl is None and not after_failed_recalc:
         dev.append('no-piece-length')
-    if pl and obs['size'] > 0 and obs['numPieces'] != -(-obs['size'] // pl):
+    if pl and obs['size'] > 0 and obs['numPieces'] is not None and obs['numPieces'] != -(-obs['size'] // pl):
         dev.append('pieces-property!=ceil')
     if 'pieces' in info:
         raw = info['pieces']
@@ -669,7 +733,7 @@ def _content(o):
     return (o['mode'], o['length'], o['files'], o['pl'], o['path'])
 
 
-def filter_codes(op, res, pre, obs, tree):
+def filter_codes(op, res, pre, obs, tree, faults=()):
     """The filter clauses of C09 on the real object: the filter lists hold what was assigned
     (every item once, only patterns); the listed files follow the filters that are actually in the
     lists; hashes do not survive a change of filters / files / piece length; an invalid regular
@@ -692,7 +756,8 @@ def filter_codes(op, res, pre, obs, tree):
     if f is not None:
         # remove() compares with the stored items and never compiles its argument
         bad = [p for p in op_patterns(op) if not rx_valid(p)] if f['o'] != 'remove' else []
-        if bad and res != 're.error':
+        if bad and res != 're.error' and not failed_recalc(op, res, faults):
+            # (a batch update whose callback fails first never reaches the invalid item)
             dev.append('invalid-regex-not-rejected')
         if not bad and res == 're.error':
             dev.append('valid-regex-rejected')
@@ -718,7 +783,7 @@ def filter_codes(op, res, pre, obs, tree):
                     dev.append('other-filter-list-changed')
             # an edit that raises anything but an error of the callback (a TorfError: the list is
             # changed by then) must not have touched the torrent
-            if res != 'ok' and res not in DOCUMENTED and \
+            if res != 'ok' and res not in DOCUMENTED and not failed_recalc(op, res, faults) and \
                     f['o'] in ('setSlice', 'setIndex', 'append', 'assignSelf', 'insert', 'pop', 'remove', 'reverse',
                                'del', 'delSlice', 'clear') and \
                     (_filters(pre) != _filters(obs) or _content(pre) != _content(obs) or pre['pieces'] != obs['pieces']):
@@ -767,8 +832,32 @@ def _resumable(ops, k, dev):
             and k + 1 < len(ops) and ops[k + 1]['k'] == ops[k]['k'])
 
 
-def exec_op(torf, t, op, root, held):
-    """run one operation on one object: (outcome kind, deviation codes of the call itself)"""
+RECALC_OPS = {'setPath', 'setFiles', 'filesDel', 'filesAppend', 'filesClear', 'setFilepaths', 'fpDel', 'fpAppend',
+              'fpClear'}
+RESTORING_OPS = {'setFiles', 'filesAppend', 'filesClear', 'setFilepaths', 'fpAppend', 'fpClear', 'setPieceSize'}
+
+
+def recalculates(op):
+    """the operation ends with (or is) `piece_size = None`: a content assignment, an edit of a file /
+    filter list, `piece_size = None` itself"""
+    return op['k'] in RECALC_OPS or op['k'] in FLIST_OPS or (op['k'] == 'setPieceSize' and op['v'] is None)
+
+
+def failed_recalc(op, res, faults):
+    """the operation raised one of the exception kinds a failing recalculation raises in this world"""
+    return res != 'ok' and recalculates(op) and res in faults
+
+
+def restoring(op, res):
+    """a completed content / piece-size assignment (the model's `restores`)"""
+    return res == 'ok' and (op['k'] in RESTORING_OPS or (op['k'] == 'setPath' and op['p'] is not None))
+
+
+def exec_op(torf, t, op, root, held, faults=()):
+    """run one operation on one object: (outcome kind, deviation codes of the call itself).
+    `faults`: the exception kinds of a failing recalculation (`fault_names`) - whether they are the
+    right ones is judged against the model's outcome, they are not "undocumented" (C09 is about
+    the hashes and the coherence of the attributes, not about error kinds)"""
     dev = []
     try:
         res = do_op(torf, t, op, root, held)
@@ -791,21 +880,41 @@ def exec_op(torf, t, op, root, held):
         raise
     except Exception as e:   # noqa: undocumented exception type
         res = type(e).__name__
-    if res != 'ok' and res not in DOCUMENTED and res not in ('re.error', 'IndexError', 'ValueError') and not res.startswith('generate-'):
+    if res != 'ok' and res not in DOCUMENTED and res not in ('re.error', 'IndexError', 'ValueError') and not res.startswith('generate-') \
+            and not failed_recalc(op, res, faults):
         dev.append('undocumented-exception-' + res)
     return res, dev
 
 
-def run_history(torf, ops, root, stop_on_deviation=True, timeout=60):
-    """Run one history on a fresh Torrent.  Returns the list of steps
-    {'obs':…, 'res':…, 'dev': [codes]} (truncated after the first deviation, unless `_resumable`)."""
+WEAK_IGNORED = BOUND_CODES | {'no-piece-length'}
+
+
+def _generate_without_piece_length(op, res, dev, pre, half_way):
+    """`generate()` on content that an earlier FAILED content assignment left without a piece length
+    (the recalculation raised after the file list was stored): the hashing loop ends in
+    `ValueError: range() arg 3 must not be zero`.  That is the consequence of the half-way state
+    (recorded with D09b / the candidate D09h), not a second deviation: it is reported to the caller
+    as the model's outcome for this state."""
+    code = 'undocumented-exception-ValueError-outside-remove'
+    if op['k'] == 'generate' and half_way and code in dev and pre is not None and pre['pl'] is None and pre['size'] > 0:
+        dev.remove(code)
+        return 'internal:no piece length'
+    return res
+
+
+def run_history(torf, ops, root, stop_on_deviation=True, timeout=60, rules=None):
+    """Run one history on a fresh Torrent (of the class `make_class(torf, rules)`).  Returns the list
+    of steps {'obs':…, 'res':…, 'dev': [codes], 'lenient': bool} (truncated after the first deviation,
+    unless `_resumable`, or the deviation is confined to the bounds directly after a bound assignment
+    - the region of D09b: the history goes on and the caller judges the later steps by the clauses
+    that hold without hypothesis, `WEAK_IGNORED` aside)."""
     steps = []
     old = signal.signal(signal.SIGALRM, _alarm)
     signal.alarm(timeout)
     init = None
     try:
         try:
-            t = torf.Torrent()
+            t = make_class(torf, rules)()
             init = project(t, root)
         except _Timeout:
             raise
@@ -815,15 +924,26 @@ def run_history(torf, ops, root, stop_on_deviation=True, timeout=60):
         held = {}
         tree = None
         pre = init
+        faults = fault_names(rules)
+        lenient = False      # a recalculation failed and no content / piece-size assignment completed since
+        weak = False         # region of D09b: the bounds crossed
         for op in ops:
-            res, dev = exec_op(torf, t, op, root, held)
+            res, dev = exec_op(torf, t, op, root, held, faults)
             obs = project(t, root)
-            dev += spec_check(torf, t, obs, root)
+            if failed_recalc(op, res, faults):
+                lenient = True
+            elif restoring(op, res):
+                lenient = False
+            res = _generate_without_piece_length(op, res, dev, pre, lenient or weak)
+            dev += spec_check(torf, t, obs, root, after_failed_recalc=lenient)
             tree = tree_after(op, res, tree)
-            dev += filter_codes(op, res, pre, obs, tree)
+            dev += filter_codes(op, res, pre, obs, tree, faults)
             pre = obs
-            steps.append({'obs': obs, 'res': res, 'dev': dev})
+            steps.append({'obs': obs, 'res': res, 'dev': dev, 'lenient': lenient})
             if dev and stop_on_deviation and not _resumable(ops, len(steps) - 1, dev):
+                if set(dev) <= WEAK_IGNORED and (weak or op['k'] in ('setMin', 'setMax')):
+                    weak = True
+                    continue
                 break
     except _Timeout:
         steps.append({'obs': None, 'res': 'timeout', 'dev': ['timeout']})
@@ -843,7 +963,7 @@ def _pieces_raw(t):
     return t.metainfo['info'].get('pieces')
 
 
-def run_history2(torf, ops, root, timeout=90):
+def run_history2(torf, ops, root, timeout=90, rules=None):
     """A history on TWO objects (both start as Torrent()).  op['on'] (0|1, default 0) selects the
     object; {'k': 'copy', 'on': i} is `other = objs[i].copy()`.  After every step BOTH objects are
     projected; the C09 clauses are evaluated on the object that was worked on (for a copy: on the new
@@ -855,7 +975,8 @@ def run_history2(torf, ops, root, timeout=90):
     init = None
     try:
         try:
-            objs = [torf.Torrent(), torf.Torrent()]
+            cls = make_class(torf, rules)
+            objs = [cls(), cls()]
             init = project(objs[0], root)
         except _Timeout:
             raise
@@ -865,6 +986,8 @@ def run_history2(torf, ops, root, timeout=90):
         held = [{}, {}]
         tree = [None, None]
         detached = [False, False]
+        faults = fault_names(rules)
+        lenient = [False, False]
         pre = [init, project(objs[1], root)]
         praw = [None, None]
         for op in ops:
@@ -882,6 +1005,7 @@ def run_history2(torf, ops, root, timeout=90):
                     dev.append('undocumented-exception-' + res)
                 held[j] = {}
                 tree[j] = None
+                lenient[j] = lenient[i]
                 obs = [None, None]
                 obs[i] = project(objs[i], root)
                 obs[j] = project(objs[j], root)
@@ -893,18 +1017,23 @@ def run_history2(torf, ops, root, timeout=90):
                 if any(obs[j][k2] != obs[i][k2] for k2 in same) or _pieces_raw(objs[j]) != _pieces_raw(objs[i]) \
                         or objs[j] is objs[i]:
                     dev.append('copy-differs-from-original')
-                dev += spec_check(torf, objs[j], obs[j], root, detached[j])
+                dev += spec_check(torf, objs[j], obs[j], root, detached[j], lenient[j])
                 dev += filter_codes(op, res, None, obs[j], None)
             else:
-                res, dev = exec_op(torf, objs[i], op, root, held[i])
+                res, dev = exec_op(torf, objs[i], op, root, held[i], faults)
                 obs = [None, None]
                 obs[i] = project(objs[i], root)
                 obs[j] = project(objs[j], root)
                 if obs[i]['pieces'] is None or obs[i]['path'] is not None:
                     detached[i] = False
-                dev += spec_check(torf, objs[i], obs[i], root, detached[i])
+                if failed_recalc(op, res, faults):
+                    lenient[i] = True
+                elif restoring(op, res):
+                    lenient[i] = False
+                res = _generate_without_piece_length(op, res, dev, pre[i], lenient[i])
+                dev += spec_check(torf, objs[i], obs[i], root, detached[i], lenient[i])
                 tree[i] = tree_after(op, res, tree[i])
-                dev += filter_codes(op, res, pre[i], obs[i], tree[i])
+                dev += filter_codes(op, res, pre[i], obs[i], tree[i], faults)
                 if obs[j] != pre[j] or _pieces_raw(objs[j]) != praw[j]:
                     changed = sorted(k2 for k2 in obs[j] if obs[j][k2] != pre[j][k2]) or ['pieces(bytes)']
                     dev.append('operation-on-one-object-changed-the-other(' + ','.join(changed) + ')')
